@@ -206,6 +206,8 @@ def run(ctx):
   vals = ctx.coq_eval("flax", HEADER, [flax_terms(results[i]) for i in idx], per_shard=4)
   flax_ok = {i: v == "true" for i, v in zip(idx, vals)}
   reported = set()
+  scanned = sorted(set(x for r in results for x in r.get("mutable_seen", [])))
+  ctx.cov["mutable_python_objects_scanned"] = scanned[:60]
   for i, (c, r) in enumerate(zip(cases, results)):
     why = list(r.get("why", []))
     if c["id"] in cres:
